@@ -127,8 +127,15 @@ def seg_eval(seg, n, rest, traverse_lists=True, ctx=None):
     if kind == "slice":
         a, b = seg[1], seg[2]
         if is_seq(v):
-            if (a < 0) != (b < 0) or a < 0:
-                raise Unspecified("negative slice bounds")
+            if (a < 0) != (b < 0):
+                raise Unspecified("mixed-sign slice bounds")
+            if a < 0:
+                # README: negative bounds select from the end of the Array
+                if a < -len(v) or a > b:
+                    raise Unspecified("negative slice outside the Array")
+                a, b = a + len(v), b + len(v)
+                if a == b and a >= len(v):
+                    raise Unspecified("slice past the end")
             if a > b:
                 raise Unspecified("reversed slice")
             if b > len(v) or (a == b and a >= len(v)):
